@@ -120,6 +120,7 @@ type SolveOpts struct {
 	AllSolvers bool // thorough: every solver on every obligation, disagreement is an error
 	Workers    int
 	DumpDir    string
+	NoRelax    bool // skip the quantifier-free relaxation pass
 }
 
 // SolveAll discharges the obligations in parallel.
@@ -164,6 +165,29 @@ func solveOne(it SolveItem, opts SolveOpts) {
 	}
 	var results []solveResult
 	decide := func(r solveResult) bool { return r.status == "unsat" || r.status == "sat" }
+	if o.Cover {
+		// Reachability (vacuity) checks: solvers rarely answer "sat" in the presence of quantified axioms, so
+		// the full query is tried briefly and then its quantifier-free relaxation. A relaxed "sat" shows that
+		// requires, type facts and path conditions are not contradictory by themselves.
+		r := runSolver(Solvers[0], query, 1500)
+		if !decide(r) {
+			r2 := runSolver(Solvers[0], it.VC.query(o, false, true), 3000)
+			r2.solver += " (quantifier-free relaxation)"
+			if decide(r2) {
+				r = r2
+			}
+		}
+		o.Ms = r.ms
+		switch r.status {
+		case "sat":
+			o.Status, o.Solver = "cover-ok", r.solver
+		case "unsat":
+			o.Status, o.Solver = "cover-vacuous", r.solver
+		default:
+			o.Status = "cover-unknown"
+		}
+		return
+	}
 	parallel := func(ss []SolverCfg, q string, ms int) {
 		var mu sync.Mutex
 		var wg sync.WaitGroup
@@ -198,7 +222,7 @@ func solveOne(it SolveItem, opts SolveOpts) {
 			decided = true
 		}
 	}
-	if !decided && !o.Cover {
+	if !decided && !o.Cover && !opts.NoRelax {
 		// quantifier-free relaxation: unsat still discharges, sat gives a candidate counterexample
 		rq := it.VC.query(o, true, true)
 		r := runSolver(Solvers[0], rq, opts.TimeoutMs/2+1000)
@@ -244,7 +268,8 @@ func solveOne(it SolveItem, opts SolveOpts) {
 	}
 	switch {
 	case unsat != nil:
-		o.Status, o.Solver, o.Ms = "discharged", unsat.solver, unsat.ms
+		o.Status, o.Solver = "discharged", unsat.solver
+		o.Detail["total_solver_ms"] = fmt.Sprint(total)
 	case sat != nil:
 		o.Status, o.Solver = "failed", sat.solver
 		o.Model = parseModel(sat.out)
